@@ -163,6 +163,9 @@ pub fn record(bytes: &[u8], cfg: &RCfg, tab: &mut ErrTab) -> Vec<Ev> {
     }
 }
 
+/// number of times the element state could not be read back (the check then cannot decide)
+pub static OBSERVATION_LOST: std::sync::atomic::AtomicUsize = std::sync::atomic::AtomicUsize::new(0);
+
 // ------------------------------------------------------------------ Element state (parsed from {:?})
 #[derive(Clone, Debug, PartialEq, Eq, Hash)]
 pub struct Tree {
@@ -284,40 +287,88 @@ impl<'a> P<'a> {
         }
         Ok(v)
     }
+    /// skip one Debug value (up to the `,` or closing bracket of the enclosing structure)
+    fn skip_value(&mut self) -> Result<(), String> {
+        let mut depth = 0i32;
+        loop {
+            if self.i >= self.s.len() {
+                return Err("unterminated value".into());
+            }
+            match self.s[self.i] {
+                b'"' => {
+                    self.string()?;
+                    continue;
+                }
+                b'(' | b'[' | b'{' => depth += 1,
+                b')' | b']' | b'}' => {
+                    if depth == 0 {
+                        return Ok(());
+                    }
+                    depth -= 1;
+                }
+                b',' if depth == 0 => return Ok(()),
+                _ => {}
+            }
+            self.i += 1;
+        }
+    }
+    /// `Element { field: value, ... }` — the fields the model knows in any order; a field it does
+    /// not know (added by a later version of the library) is skipped, so that adding private state
+    /// does not blind the harness
     fn element(&mut self) -> Result<Tree, String> {
         self.lit("Element {")?;
-        self.lit("name:")?;
-        let name = self.string()?;
-        self.lit(", text:")?;
-        let text = if self.peek("None") {
-            self.lit("None")?;
-            false
-        } else {
-            self.lit("Some(")?;
-            self.string()?;
-            self.lit(")")?;
-            true
-        };
-        self.lit(", standalone:")?;
-        let standalone = self.boolean()?;
-        self.lit(", count:")?;
-        let count = self.number()?;
-        self.lit(", attributes:")?;
-        let attrs = self.list(|p| p.tagged(|q| q.string()))?;
-        self.lit(", children:")?;
-        let children = self.list(|p| p.tagged(|q| q.element()))?;
-        self.lit(", position:")?;
-        let pos = if self.peek("None") {
-            self.lit("None")?;
-            None
-        } else {
-            self.lit("Some(")?;
-            let n = self.number()?;
-            self.lit(")")?;
-            Some(n as usize)
-        };
-        self.lit("}")?;
-        Ok(Tree { name, text, standalone, count, attrs, children, pos })
+        let (mut name, mut text, mut standalone, mut count, mut attrs, mut children, mut pos) = (None, None, None, None, None, None, None);
+        loop {
+            if self.peek("}") {
+                self.lit("}")?;
+                break;
+            }
+            self.ws();
+            let st = self.i;
+            while self.i < self.s.len() && (self.s[self.i].is_ascii_alphanumeric() || self.s[self.i] == b'_') {
+                self.i += 1;
+            }
+            let field = std::str::from_utf8(&self.s[st..self.i]).unwrap().to_string();
+            self.lit(":")?;
+            match field.as_str() {
+                "name" => name = Some(self.string()?),
+                "text" => {
+                    text = Some(if self.peek("None") {
+                        self.lit("None")?;
+                        false
+                    } else {
+                        self.lit("Some(")?;
+                        self.string()?;
+                        self.lit(")")?;
+                        true
+                    })
+                }
+                "standalone" => standalone = Some(self.boolean()?),
+                "count" => count = Some(self.number()?),
+                "attributes" => attrs = Some(self.list(|p| p.tagged(|q| q.string()))?),
+                "children" => children = Some(self.list(|p| p.tagged(|q| q.element()))?),
+                "position" => {
+                    pos = Some(if self.peek("None") {
+                        self.lit("None")?;
+                        None
+                    } else {
+                        self.lit("Some(")?;
+                        let n = self.number()?;
+                        self.lit(")")?;
+                        Some(n as usize)
+                    })
+                }
+                "" => return Err(format!("field name expected at {}", self.i)),
+                _ => self.skip_value()?,
+            }
+            if self.peek(",") {
+                self.lit(",")?;
+            }
+        }
+        match (name, text, standalone, count, attrs, children, pos) {
+            (Some(name), Some(text), Some(standalone), Some(count), Some(attrs), Some(children), Some(pos)) => Ok(Tree { name, text, standalone, count, attrs, children, pos }),
+            _ => Err("a field of Element the model observes is missing from the Debug output".into()),
+        }
     }
 }
 pub fn tree_of(e: &Element<String>) -> Result<Tree, String> {
@@ -449,7 +500,10 @@ pub fn run_impl(docs: &[Vec<u8>], cfg: &RCfg, tab: &mut ErrTab) -> ImplResult {
         Ok(Ok(None)) => ImplResult::Other("no documents".into()),
         Ok(Ok(Some(e))) => match tree_of(&e) {
             Ok(t) => ImplResult::Tree(t, e),
-            Err(m) => ImplResult::Other(format!("cannot read Debug output: {}", m)),
+            Err(m) => {
+                OBSERVATION_LOST.fetch_add(1, std::sync::atomic::Ordering::Relaxed);
+                ImplResult::Other(format!("cannot read Debug output: {}", m))
+            }
         },
     }
 }
